@@ -132,164 +132,12 @@ fn same_bytes<const N: usize>(sink: &ByteSink<N>, m: &BitBuf<1>) -> bool {
     ok
 }
 
-fn wr_header<W: BitWrite + ?Sized>(w: &mut W, v: (u16, bool, u8, u8, u8, u8, u16)) -> io::Result<()> {
-    w.write::<14, u16>(v.0)?;
-    w.write_bit(v.1)?;
-    w.write_bit(!v.1)?;
-    w.write::<4, u8>(v.2)?;
-    w.write::<4, u8>(v.3)?;
-    w.write::<4, u8>(v.3 >> 4)?;
-    w.write::<3, u8>(v.4)?;
-    w.write_bit(false)?;
-    w.write_from::<u8>(v.5)?;
-    w.write::<16, u16>(v.6)
-}
-
-#[kani::proof]
-#[kani::unwind(10)]
-pub(crate) fn k_dep_write_header_fields() {
-    let v: (u16, bool, u8, u8, u8, u8, u16) = kani::any();
-    let mut sink = ByteSink::<8>::new();
-    let a = {
-        let mut real = BitWriter::endian(&mut sink, BigEndian);
-        wr_header(&mut real, v).is_ok()
-    };
-    let mut m = BitBuf::<1>::empty();
-    let b = wr_header(&mut m, v).is_ok();
-    vk_assert!(a == b, "bitstream-io BitWriter rejects exactly the values that do not fit their field (dependency contract)");
-    // a value that does not fit is rejected; what was written before it is the same on both sides up to the last whole byte
-    if a {
-        vk_assert!(same_bytes(&sink, &m), "bitstream-io BitWriter lays fixed-width fields out MSB-first exactly as the dependency contract says");
-    }
-}
-
-fn wr_residual<W: BitWrite + ?Sized>(w: &mut W, k: u32, width: u32, msb: u32, lsb: u32, s: i32) -> io::Result<()> {
-    w.write::<2, u8>(1)?;
-    w.write_unary::<1>(msb)?;
-    w.write_counted::<0b1111, u32>(BitCount::try_from(k).map_err(|_| io::Error::from(io::ErrorKind::InvalidInput))?, lsb)?;
-    let width: SignedBitCount<32> = width.try_into().map_err(|_| io::Error::from(io::ErrorKind::InvalidInput))?;
-    w.write_signed_counted::<32, i32>(width, s)?;
-    w.byte_align()
-}
-
-macro_rules! k_dep_write_residual {
-    ($name:ident, $k:expr, $w:expr) => {
-        #[kani::proof]
-        #[kani::unwind(12)]
-        pub(crate) fn $name() {
-            let msb: u32 = kani::any();
-            kani::assume(msb <= 9);
-            let lsb: u32 = kani::any();
-            let s: i32 = kani::any();
-            let mut sink = ByteSink::<8>::new();
-            let a = {
-                let mut real = BitWriter::endian(&mut sink, BigEndian);
-                wr_residual(&mut real, $k, $w, msb, lsb, s).is_ok()
-            };
-            let mut m = BitBuf::<1>::empty();
-            let b = wr_residual(&mut m, $k, $w, msb, lsb, s).is_ok();
-            vk_assert!(a == b, "bitstream-io BitWriter rejects exactly the values that do not fit a run-time-width unsigned or signed field (dependency contract)");
-            if a {
-                vk_assert!(same_bytes(&sink, &m), "bitstream-io BitWriter lays out unary runs, remainders, two's-complement fields and alignment padding as the dependency contract says");
-            }
-        }
-    };
-}
-k_dep_write_residual!(k_dep_write_residual_k0_w1, 0, 1);
-k_dep_write_residual!(k_dep_write_residual_k3_w17, 3, 17);
-k_dep_write_residual!(k_dep_write_residual_k14_w32, 14, 32);
-
-fn wr_meta<W: BitWrite + ?Sized>(w: &mut W, five: u8, be: u16, le: u32, two: [u8; 2]) -> io::Result<(bool, bool, bool)> {
-    let a0 = w.byte_aligned();
-    w.write::<5, u8>(five)?;
-    let a1 = w.byte_aligned();
-    w.pad(3)?;
-    w.write_from::<u16>(be)?;
-    w.write_as_from::<LittleEndian, u32>(le)?;
-    w.write_bytes(&two)?;
-    Ok((a0, a1, w.byte_aligned()))
-}
-
-#[kani::proof]
-#[kani::unwind(10)]
-pub(crate) fn k_dep_write_meta_fields() {
-    let five: u8 = kani::any();
-    let be: u16 = kani::any();
-    let le: u32 = kani::any();
-    let two: [u8; 2] = kani::any();
-    let mut sink = ByteSink::<10>::new();
-    let a = {
-        let mut real = BitWriter::endian(&mut sink, BigEndian);
-        wr_meta(&mut real, five, be, le, two)
-    };
-    let mut m = BitBuf::<2>::empty();
-    let b = wr_meta(&mut m, five, be, le, two);
-    let same = match (&a, &b) {
-        (Ok(x), Ok(y)) => x == y,
-        (Err(_), Err(_)) => true,
-        _ => false,
-    };
-    let ok = a.is_ok();
-    std::mem::forget((a, b));
-    vk_assert!(same, "bitstream-io BitWriter agrees with the dependency contract on alignment queries and value rejection");
-    if ok {
-        let mut eq = sink.len as u32 * 8 == m.len;
-        let mut i = 0;
-        while i < 9 {
-            eq &= sink.data[i] == m.byte(i as u32);
-            i += 1;
-        }
-        vk_assert!(eq, "bitstream-io BitWriter writes whole integers of both byte orders, byte runs and zero padding as the dependency contract says");
-    }
-}
-
-// ---- round trip through the real library only: what the field tape (harness/tape.rs) relies on ------------
-// "a reader that asks for the same kinds and widths the writer used gets the written values back"
-macro_rules! k_dep_roundtrip {
-    ($name:ident, $k:expr, $w:expr) => {
-        #[kani::proof]
-        #[kani::unwind(12)]
-        pub(crate) fn $name() {
-            let msb: u32 = kani::any();
-            kani::assume(msb <= 9);
-            let lsb: u32 = kani::any();
-            kani::assume($k == 0 && lsb == 0 || $k > 0 && (lsb >> ($k as u32 % 32)) == 0);
-            let s: i32 = kani::any();
-            kani::assume($w == 32 || (s >= -(1i32 << (($w as u32 - 1) % 31)) && s < (1i32 << (($w as u32 - 1) % 31))));
-            let mut sink = ByteSink::<8>::new();
-            let wrote = {
-                let mut real = BitWriter::endian(&mut sink, BigEndian);
-                wr_residual(&mut real, $k, $w, msb, lsb, s).is_ok()
-            };
-            vk_assert!(wrote, "values inside their field's range are accepted by bitstream-io BitWriter");
-            let src = ByteSrc::<8> { data: sink.data, len: sink.len, pos: 0, failed: false };
-            let mut real = BitReader::endian(src, BigEndian);
-            let back = rd_residual_after_method(&mut real, $k, $w);
-            let same = match &back {
-                Ok(x) => *x == (1u8, msb, lsb, s),
-                Err(_) => false,
-            };
-            std::mem::forget(back);
-            vk_assert!(same, "bitstream-io: reading the kinds and widths that were written returns the written values (field-tape contract)");
-        }
-    };
-}
-fn rd_residual_after_method<R: BitRead + ?Sized>(r: &mut R, k: u32, w: u32) -> io::Result<(u8, u32, u32, i32)> {
-    let method = r.read::<2, u8>()?;
-    let msb = r.read_unary::<1>()?;
-    let lsb = r.read_counted::<0b1111, u32>(BitCount::try_from(k).map_err(|_| io::Error::from(io::ErrorKind::InvalidInput))?)?;
-    let width: SignedBitCount<32> = w.try_into().map_err(|_| io::Error::from(io::ErrorKind::InvalidInput))?;
-    let s = r.read_signed_counted::<32, i32>(width)?;
-    Ok((method, msb, lsb, s))
-}
-k_dep_roundtrip!(k_dep_roundtrip_k3_w17, 3, 17);
-k_dep_roundtrip!(k_dep_roundtrip_k14_w32, 14, 32);
-k_dep_roundtrip!(k_dep_roundtrip_k0_w1, 0, 1);
-
-// ---- experiments ----
+// The writer side is much more expensive for CBMC than the reader side (BitWriter's queue + write_all): the long scripts
+// (a whole header, a whole residual, the metadata mix) were built and do not finish (10 min / out of memory); what finishes
+// is one or two fields per script.
 #[kani::proof]
 #[kani::unwind(6)]
-pub(crate) fn k_dep_x_write_small() {
+pub(crate) fn k_dep_write_unsigned_fields() {
     let a: u8 = kani::any();
     let b: u16 = kani::any();
     let mut sink = ByteSink::<4>::new();
@@ -299,36 +147,61 @@ pub(crate) fn k_dep_x_write_small() {
     };
     let mut m = BitBuf::<1>::empty();
     let rb = m.write::<4, u8>(a).and_then(|_| m.write::<12, u16>(b)).is_ok();
-    vk_assert!(ra == rb, "x");
-    if ra { vk_assert!(same_bytes(&sink, &m), "y"); }
+    vk_assert!(ra == rb, "bitstream-io BitWriter rejects exactly the values that do not fit their field (dependency contract)");
+    if ra {
+        vk_assert!(same_bytes(&sink, &m), "bitstream-io BitWriter lays fixed-width fields out MSB-first exactly as the dependency contract says");
+    }
 }
-#[kani::proof]
-#[kani::unwind(12)]
-pub(crate) fn k_dep_x_write_unary() {
-    let n: u32 = kani::any();
-    kani::assume(n <= 9);
-    let mut sink = ByteSink::<4>::new();
-    let ra = {
-        let mut real = BitWriter::endian(&mut sink, BigEndian);
-        real.write_unary::<1>(n).and_then(|_| real.byte_align()).is_ok()
+
+macro_rules! k_dep_write_signed {
+    ($name:ident, $w:expr) => {
+        #[kani::proof]
+        #[kani::unwind(10)]
+        pub(crate) fn $name() {
+            let s: i32 = kani::any();
+            let mut sink = ByteSink::<5>::new();
+            let width: SignedBitCount<32> = ($w as u32).try_into().unwrap();
+            let ra = {
+                let mut real = BitWriter::endian(&mut sink, BigEndian);
+                real.write_signed_counted::<32, i32>(width, s).and_then(|_| real.byte_align()).is_ok()
+            };
+            let mut m = BitBuf::<1>::empty();
+            let rb = m.write_signed_counted::<32, i32>(width, s).and_then(|_| BitWrite::byte_align(&mut m)).is_ok();
+            vk_assert!(ra == rb, "bitstream-io BitWriter rejects exactly the values outside the two's-complement range of the field (dependency contract)");
+            if ra {
+                vk_assert!(same_bytes(&sink, &m), "bitstream-io BitWriter writes two's-complement fields and zero alignment padding as the dependency contract says");
+            }
+        }
     };
-    let mut m = BitBuf::<1>::empty();
-    let rb = BitWrite::write_unary::<1>(&mut m, n).and_then(|_| BitWrite::byte_align(&mut m)).is_ok();
-    vk_assert!(ra == rb, "x");
-    if ra { vk_assert!(same_bytes(&sink, &m), "y"); }
 }
-#[kani::proof]
-#[kani::unwind(6)]
-pub(crate) fn k_dep_x_write_signed() {
-    let s: i32 = kani::any();
-    let mut sink = ByteSink::<4>::new();
-    let width: SignedBitCount<32> = 17u32.try_into().unwrap();
-    let ra = {
-        let mut real = BitWriter::endian(&mut sink, BigEndian);
-        real.write_signed_counted::<32, i32>(width, s).and_then(|_| real.byte_align()).is_ok()
+// (width 17: CBMC out of memory)
+k_dep_write_signed!(k_dep_write_signed_w1, 1);
+k_dep_write_signed!(k_dep_write_signed_w32, 32);
+
+macro_rules! k_dep_write_unary {
+    ($name:ident, $n:expr) => {
+        #[kani::proof]
+        #[kani::unwind(10)]
+        pub(crate) fn $name() {
+            // the run length is concrete per instance (a symbolic one makes the writer's position symbolic: 5 min timeout)
+            let tail: u8 = kani::any();
+            let mut sink = ByteSink::<4>::new();
+            let ra = {
+                let mut real = BitWriter::endian(&mut sink, BigEndian);
+                real.write_unary::<1>($n).and_then(|_| real.write::<3, u8>(tail)).and_then(|_| real.byte_align()).is_ok()
+            };
+            let mut m = BitBuf::<1>::empty();
+            let rb = BitWrite::write_unary::<1>(&mut m, $n).and_then(|_| m.write::<3, u8>(tail)).and_then(|_| BitWrite::byte_align(&mut m)).is_ok();
+            vk_assert!(ra == rb, "bitstream-io BitWriter: unary run followed by a field is accepted / rejected as the dependency contract says");
+            if ra {
+                vk_assert!(same_bytes(&sink, &m), "bitstream-io BitWriter writes a unary run as n zero bits and a one bit");
+            }
+        }
     };
-    let mut m = BitBuf::<1>::empty();
-    let rb = m.write_signed_counted::<32, i32>(width, s).and_then(|_| BitWrite::byte_align(&mut m)).is_ok();
-    vk_assert!(ra == rb, "x");
-    if ra { vk_assert!(same_bytes(&sink, &m), "y"); }
 }
+k_dep_write_unary!(k_dep_write_unary_0, 0);
+// (runs of 5 and 13: CBMC out of memory; a run of 0 takes 12 min)
+
+// A write-then-read round trip through the real library only (what harness/tape.rs relies on) was built for one residual
+// (2-bit code, unary, remainder, signed field) and does not finish in 10 min; it follows from the reader and writer
+// obligations above agreeing with one and the same model, for the field kinds they cover.
